@@ -24,6 +24,42 @@ def replay(spec):
     kind = spec.get("kind")
     if kind in ("ssa", "delay", "volume", "delay_volume"):
         return ssa.replay(spec)
+    if kind == "safe_block":
+        # the counterexample's stoichiometry with constant positive (non mass-action) rates: the safe interface must give
+        # propensity 0 to every reaction whose immediate or total consumption exceeds the state
+        import warnings
+        warnings.simplefilter("ignore")
+        from bioscrape.types import Model
+        from bioscrape.simulator import SafeModelCSimInterface
+        v = unfrac(spec["values"])
+        S, R = spec["S"], spec["R"]
+        names = ["S%d" % i for i in range(S)]
+        U = [[int(v.get("U_%d_%d" % (i, j), 0)) for j in range(R)] for i in range(S)]
+        D = [[int(v.get("D_%d_%d" % (i, j), 0)) for j in range(R)] for i in range(S)]
+        x = [float(int(v.get("x_%d" % i, 0))) for i in range(S)]
+        rxs = []
+        for j in range(R):
+            def side(M_, sign):
+                out = []
+                for i in range(S):
+                    if M_[i][j] * sign > 0:
+                        out += [names[i]] * abs(M_[i][j])
+                return out
+            rxs.append((side(U, -1), side(U, 1), "general", {"rate": "2.5"}, "fixed", side(D, -1), side(D, 1), {"delay": 1.0}))
+        M = Model(species=names, reactions=rxs, initial_condition_dict={n: x[i] for i, n in enumerate(names)})
+        itf = SafeModelCSimInterface(M)
+        idx = M.get_species2index()
+        st = np.zeros(S)
+        for i, n in enumerate(names):
+            st[idx[n]] = x[i]
+        a = itf.py_compute_propensities(st, 0.0, float(v.get("V", 1.0)) or 1.0, spec.get("mode", "stochastic"))
+        bad = []
+        for j in range(R):
+            short = [names[i] for i in range(S) if x[i] + U[i][j] < 0 or x[i] + U[i][j] + D[i][j] < 0]
+            if a[j] > 0 and short:
+                bad.append("reaction %d (immediate %s, delayed %s) gets propensity %s at state %s although %s is short" %
+                           (j, [U[i][j] for i in range(S)], [D[i][j] for i in range(S)], a[j], x, short))
+        return {"reproduced": bool(bad), "observed": bad[:2], "expected": "propensity 0 for a reaction without its full complement of reactants"}
     v = unfrac(spec["values"])
     species = ["A", "B", "C"]
     k = max(float(v["k"]), 2.0)      # the rate constant is free (> 0): use one at which reactions actually fire
